@@ -155,6 +155,28 @@ def accessors(repo, res):
         eff = Effects(fn)
         ok = v is not None and not eff.alias_of(v) and norm(v) in ("np.array(self)", "np.array(self, copy=True)", "self.view(np.ndarray).copy()")
         res.check(ok, f"{q}:copy", fn.where(), f"{q.split('.')[-1]} must return independent data", "np.array(self)", norm(v) if v is not None else None, rid=r2)
+    # unit_array / ua: an array of ones of the SAME class as self (np.ones_like keeps the subclass: a quantity gives a
+    # quantity); an explicit unyt_array(...) turns a 0-d quantity into a 0-d array - also for `q ** 0`, built from it
+    for q in ("unyt_array.unit_array", "unyt_array.ua"):
+        fn, v = single_return(q)
+        ok = v is not None and norm(v) in ("np.ones_like(self)", "type(self)(np.ones_like(self.d), self.units)", "type(self)(np.ones_like(self.ndview), self.units)")
+        res.check(ok, f"{q}:class-preserving", fn.where(), f"{q.split('.')[-1]} must build its result in the class of self (a unyt_quantity stays a quantity, so does quantity ** 0)", "np.ones_like(self)", norm(v) if v is not None else None, rid=r2)
+    # unyt_quantity.reshape to a non-() shape: an array that is a VIEW of the quantity's buffer
+    qr = arr.func("unyt_quantity.reshape")
+    res.fn(qr)
+    eff_q = Effects(qr)
+    bad_q = []
+    n_q = 0
+    for r_ in [n for n in walk_no_nested(qr.node) if isinstance(n, ast.Return) and n.value is not None]:
+        v_ = r_.value
+        if isinstance(v_, ast.Call) and isinstance(v_.func, ast.Attribute) and v_.func.attr == "reshape":
+            recv = v_.func.value
+            if norm(recv) == "super()":
+                continue
+            n_q += 1
+            if "self" not in eff_q.alias_of(recv):
+                bad_q.append(norm(recv))
+    res.check(n_q >= 1 and not bad_q, "quantity.reshape:view", qr.where(), "reshaping a quantity to a non-() shape must give an array that shares memory with the quantity (built from the quantity itself, not from a copy such as .v / .value)", "unyt_array(self).reshape(...)", bad_q or "no reshape of a unyt_array built from self", rid=r2)
     fn = arr.func("unyt_array.copy")
     res.fn(fn)
     ctor = [c for c in walk_no_nested(fn.node) if isinstance(c, ast.Call) and norm(c.func) == "type(self)"]
